@@ -2022,7 +2022,7 @@ def impulse_response(
         sys = _convert_to_statespace(sys)
 
     # Check to make sure there is not a direct term
-    if np.any(sys.D != 0) and isctime(sys):
+    if np.any(sys.D != 0) and isctime(sys, strict=True):
         warnings.warn("System has direct feedthrough: `D != 0`. The "
                       "infinite impulse at `t=0` does not appear in the "
                       "output.\n"
@@ -2068,13 +2068,15 @@ def impulse_response(
         # representation for it (infinitesimally short, infinitely high).
         # See also: https://www.mathworks.com/support/tech-notes/1900/1901.html
         #
-        if isctime(sys):
+        if isctime(sys, strict=True):
             X0 = sys.B[:, i]
             U = np.zeros((sys.ninputs, T.size))
         else:
             X0 = 0
             U = np.zeros((sys.ninputs, T.size))
-            U[i, 0] = 1./sys.dt         # unit area impulse
+            # unit area impulse (time step 1 if the sampling time is
+            # unspecified, as in forced_response)
+            U[i, 0] = 1. if sys.dt in [True, None] else 1./sys.dt
 
         # Simulate the impulse response for this input
         response = forced_response(sys, T, U, X0)
